@@ -125,7 +125,7 @@ type program struct {
 }
 
 var ops = []string{"xmss.Verify", "xmss.Verify.bad", "xmss.Address", "xmss.IsValidAddress", "xmss.LegacyAddress", "xmss.IsValidLegacy", "descriptor", "mnemonic.enc48", "mnemonic.dec48", "mnemonic.enc51", "mnemonic.dec51", "mnemonic.bad",
-	"dil.Verify", "dil.Verify.bad", "dil.Open", "dil.Address", "dil.IsValidAddress", "dil.Sign.shared", "dil.Seal.shared", "dil.getters.shared", "xmss.private.Sign", "xmss.private.SetIndex", "xmss.private.getters", "xmss.VerifyW", "xmss.VerifyW"}
+	"dil.Verify", "dil.Verify.bad", "dil.Open", "dil.Address", "dil.IsValidAddress", "dil.Sign.shared", "dil.Seal.shared", "dil.getters.shared", "xmss.private.Sign", "xmss.private.SetIndex", "xmss.private.getters", "xmss.VerifyW", "xmss.VerifyW", "xmss.helpers"}
 
 // Winternitz parameters presented to VerifyWithCustomWOTSParamW: the three supported ones and, per size class,
 // one value that the parameter validation also lets through (truncated log2): 17 ~ 16, 5 ~ 4, 300 ~ 256.
@@ -149,6 +149,9 @@ func expected(p *pools, c callSpec) string {
 		return "true"
 	case "xmss.Verify.bad":
 		return "false"
+	case "xmss.helpers":
+		d := codecref.Desc(uint(a), uint(c.B%2), uint(4+2*(c.B%4)), 0)
+		return fmt.Sprintf("truetruetrue/0102030405060708/%x", d)
 	case "xmss.VerifyW":
 		if wChoices[c.B%len(wChoices)] == 16 {
 			return "true"
@@ -274,6 +277,18 @@ func execCall(p *pools, c callSpec, priv *privKey) (res string) {
 	case "xmss.VerifyW":
 		w := wChoices[c.B%len(wChoices)]
 		return fmt.Sprint(xmss.VerifyWithCustomWOTSParamW(p.x[a].msg, wSig(p, a, w), p.x[a].pk, w))
+	case "xmss.helpers":
+		// exported parameter / state constructors called directly with legal but unusual arguments: only their
+		// effect on LATER calls matters here (a memo or cache keyed too coarsely)
+		w := wChoices[c.B%len(wChoices)]
+		h := uint32(4 + 2*(c.B%4))
+		wp := xmss.NewWOTSParams(32, w)
+		xp := xmss.NewXMSSParams(32, h, w, 2)
+		st := xmss.NewBDSState(h, 32, 2)
+		out := make([]uint8, 8)
+		xmss.CalcBaseW(out, 8, []uint8{0x12, 0x34, 0x56, 0x78, 0x9a, 0xbc, 0xde, 0xf0}, xmss.NewWOTSParams(32, 16))
+		d := xmss.NewQRLDescriptor(uint8(h), xmss.HashFunction(a), common.SignatureType(c.B%2), common.SHA256_2X)
+		return fmt.Sprintf("%v%v%v/%x/%x", wp != nil, xp != nil, st != nil, out, d.GetBytes())
 	case "xmss.Address":
 		x := xmss.GetXMSSAddressFromPK(p.x[a].pk)
 		return hex.EncodeToString(x[:])
@@ -462,6 +477,9 @@ func TestPrograms(t *testing.T) {
 		// with the reference models, so a parameter cache poisoned by that call shows up there
 		for b := range wChoices {
 			for a := 0; a < 3; a++ {
+				if r.Shard()%4 == 3 {
+					execCall(p, callSpec{Op: "xmss.helpers", A: a, B: len(wChoices) - 1 - b}, nil)
+				}
 				execCall(p, callSpec{Op: "xmss.VerifyW", A: a, B: len(wChoices) - 1 - b}, nil)
 			}
 		}
